@@ -298,9 +298,10 @@ def r2(chk, ctx, p, se):
                    key="%s | Next/End arms" % f.qname, where=f.where(i), message="a state follows its Next unless it is marked End")
     j = p.join
     cs = [c for c in body_nodes(j) if isinstance(c, ast.Call) and last(callname(c)) == "change_state"]
-    ok = len(cs) == 1 and norm(cs[0].args[2]) == "state.get('Next')" and [norm(i.test) for i, arm in enclosing_ifs(se, cs[0], j.node)] == ["not state.get('End')"]
+    gcs = [(norm(i.test), arm) for i, arm in enclosing_ifs(se, cs[0], j.node)] if len(cs) == 1 else None
+    ok = len(cs) == 1 and norm(cs[0].args[2]) == "state.get('Next')" and gcs in ([("not state.get('End')", "body")], [("state.get('End')", "orelse")])
     ht = [c for c in body_nodes(j) if isinstance(c, ast.Call) and callname(c) == "handle_terminal_state"]
-    ok = ok and len(ht) == 1 and [norm(i.test) for i, arm in enclosing_ifs(se, ht[0], j.node)] == ["state.get('End')"]
+    ok = ok and len(ht) == 1 and [(norm(i.test), arm) for i, arm in enclosing_ifs(se, ht[0], j.node)] == [("state.get('End')", "body")]
     chk.ob("C01.R2", "join: Next xor End of the fan-out state", ok, "", key="%s | Next/End arms" % j.qname, where=j.where(), message="")
     chk.floor("C01.R2", n, 4, "Next/End decisions")
     for t in ("Succeed", "Fail"):
